@@ -72,7 +72,9 @@ def run(chk, gate, status):
         cases.append((recipes.RecipeGen(rng, rng.randint(3, hi), allow_d13=(i % 8 == 7), allow_rename=True), []))
     chk.assumptions += ["dilute(..., new_name=...) is generated; object names are not compared, only the keys of the returned dictionary and the contents",
                         "fill_to on a strict sub-region of a plate is generated in 1/8 of the programs and reported as known finding D13 when it reproduces"]
-    return recipes.check(chk, 'C08', cases, oracle, RULE, nontrivial)
+    cov = recipes.check(chk, 'C08', cases, oracle, RULE, nontrivial)
+    cov['recipes_under_configuration_variants'] = recipes.variants(chk, cases, oracle, 'C08v', limit=8 if chk.tier == 'quick' else 60)
+    return cov
 
 
 def replay(path):
